@@ -201,9 +201,14 @@ class LiteralConverter(Converter[T_co]):
 
     vals: t.Sequence[T_co]
 
+    def _matches(self, val: t.Any) -> bool:
+        # a literal is matched by an equal value of the same type only:
+        # `1.0` and `True` are not `Literal[1]`, nor is `0` `Literal[False]`
+        return any(type(val) is type(v) and val == v for v in self.vals)
+
     def try_convert(self, val: t.Any) -> T_co:
         """See [`Converter.try_convert`][pane.converters.Converter.try_convert]"""
-        if val in self.vals:
+        if self._matches(val):
             return val
         raise ParseInterrupt()
 
@@ -214,7 +219,7 @@ class LiteralConverter(Converter[T_co]):
 
     def collect_errors(self, val: t.Any) -> t.Optional[WrongTypeError]:
         """See [`Converter.collect_errors`][pane.converters.Converter.collect_errors]"""
-        if val in self.vals:
+        if self._matches(val):
             return None
         return WrongTypeError(self.expected(), val)
 
